@@ -29,6 +29,7 @@ from harness.util import Snapshot, close, errname, fr, frs, parse_rats, plist, p
 from harness.props import c09_opt as XO
 from harness.props import c09_api as XA
 from harness.props import c09_kern as XK
+from harness.props import c09_translate as XT
 
 TINY = float(np.finfo(np.double).tiny)
 GUARD = 33000          # doubles on each side of H: covers any signed-short stale index
@@ -307,9 +308,13 @@ class FixedRng:
 
     def __init__(self, v):
         self.v = int(v)
+        self.last = None
 
-    def integers(self, m):
-        return self.v
+    def integers(self, low, high=None):
+        # numpy's Generator.integers(low, high=None): [0, low) or [low, high); `v` folded into the range asked for
+        lo, hi = (0, int(low)) if high is None else (int(low), int(high))
+        self.last = lo + (self.v - lo) % (hi - lo)
+        return self.last
 
 
 class VoxTransform:
@@ -342,7 +347,7 @@ class C09(PropertyCheck):
     id = "C09"
     title = "Joint histograms and similarity measures match their definitions"
     lean_modules = ["NipyVerif.Props.C09", "NipyVerif.Props.C09B", "NipyVerif.Props.C09C", "NipyVerif.Props.C09D",
-                    "NipyVerif.Props.C09E"]
+                    "NipyVerif.Props.C09E", "NipyVerif.Props.C09Source"]
     driver = "Drivers/C09.lean"
     rule = ("cases from a seeded PRNG: (a) source/target volumes with masks, bin counts (up to the end of the signed "
             "short range), per-voxel dyadic target coordinates (free, affine, identity, far outside; boundary values "
@@ -356,7 +361,9 @@ class C09(PropertyCheck):
             "transforms classes, tolerances, iteration limits, callbacks; (f) fmin_steepest on exact rational "
             "objectives (sums of squares of linear forms, piecewise-linear plateaus and kinks) with the run recorded "
             "and replayed by the model; (g) configure_optimizer names/keyword sets; (h) finite-difference helpers, "
-            "eval_gradient / eval_hessian / explore, interp / similarity properties, smoothing, verbose optimize. "
+            "eval_gradient / eval_hessian / explore, interp / similarity properties, smoothing, verbose optimize; "
+            "(i) the value the random generator hands to _eval over its whole range [0, MAX_INTC) incl. both ends; "
+            "clamp inputs as int8 / uint16 / uint32 / int64 and as strided / negative-stride / read-only arrays. "
             "Non-trivial = at least one source voxel contributes, or a histogram with >= 2 non-empty cells, or a "
             "non-constant array, or an optimisation that made at least one pass; distinct by full JSON of the case")
     assumptions = [
@@ -383,11 +390,24 @@ class C09(PropertyCheck):
         "direction only enters the model through 'is the gradient identically zero'",
         "MI = H(I)+H(J)-H(I,J) and NMI = 2 MI/(H(I)+H(J)) are proved for every additive log where no TINY clamp is "
         "active on a non-empty cell; NMI's value is compared through the model's exact probabilities with math.log applied by the harness",
-        "CC: (cIJ/nonzero(sqrt(vI*vJ)))**2 is modelled as cIJ**2/max(vI*vJ, TINY**2), equal whenever vI*vJ >= 0",
+        "CC: (cIJ/nonzero(sqrt(vI*vJ)))**2 is modelled as cIJ**2/max(vI*vJ, TINY**2): proved equal for every exact "
+        "non-negative square root at vI*vJ (cc_sqrt_form, ccCall_as_modelled); binary64 sqrt is exact only up to rounding (compared to 1e-9)",
+        "function bodies of similarity_measures.py (TINY, nonzero, correlation2loglikelihood, dist2loss, SimilarityMeasure."
+        "npoints/__call__, MI loss, NMI / CC / CR / CRL1 __call__) and of histogram_registration.py (_clamp, clamp limit, "
+        "_slicer, ideal_spacing direction tests, _set_interp/_eval interp code) are regenerated statement by statement "
+        "(Gen/C09Source); reductions over the index grids (np.sum(H * self.I) ...) are named leaves = the model's sumI / sumJ / "
+        "sumIJ / isum, np.log / np.sqrt function parameters, _L1_moments = the model of the C routine",
+        "dist2loss_as_modelled / miLoss_as_modelled assume a rectangular array (every row as long as the column-sum vector)",
+        "interp='rand': the value Generator.integers returns is a parameter ranging over [drawLo, drawHi) as regenerated "
+        "from _eval's call (drawLo = 1 since fix f09febe; with drawLo = 0 the draw 0 selected partial-volume interpolation)",
         "the random-interpolation model carries the guard `sumW > 0` (in /repo since the fix of the stale-read defect)",
     ]
-    level_note = ("MI family up to log (structural theorems for every log); optimise clause proved for fmin_steepest, "
-                  "hypothesis + oracle for SciPy's multivariate optimisers")
+    level_note = ("MI family up to log (structural theorems for every log); every measure's __call__ / loss / npoints body, "
+                  "_clamp, _slicer, ideal_spacing's direction rule and the interp code regenerated from source and proved to be "
+                  "the model (renormalised variants = correlation2loglikelihood of the model's value, monotone for monotone log); "
+                  "optimise clause proved for fmin_steepest, hypothesis + oracle for SciPy's multivariate optimisers; "
+                  "Parzen filtering (scipy gaussian_filter), _registration.pyx glue (fingerprinted) and SupervisedLikelihoodRatio's "
+                  "refusals / cache remain modelled-and-compared or oracle-only")
 
     # ------------------------------------------------------------------
     def translators(self):
@@ -411,7 +431,7 @@ class C09(PropertyCheck):
         if hashlib.sha1(body.encode()).hexdigest() != "74d96c9074b5b83120dffb4b152d5afb23dd7167":
             raise TieBroken("_registration.pyx glue (_joint_histogram/_L1_moments) differs from the modelled text")
         files, _ = XO.translate(REPO, TieBroken)
-        return files + XK.translate(REPO, TieBroken)
+        return files + XK.translate(REPO, TieBroken) + XT.translate(REPO, TieBroken)
 
     # ------------------------------------------------------------------
     def generate(self, rng, tier):
@@ -479,7 +499,9 @@ class C09(PropertyCheck):
                           "tbins": rng.choice([None, None, 2, 5, 16]),
                           "mask": rng.choice([None, None, "box", "rand"]),
                           "sim": rng.choice(MEASURES), "interp": rng.choice(["pv", "tri", "rand"]),
-                          "renorm": rng.random() < 0.25, "rseed": rng.randrange(1, 2 ** 31 - 1),
+                          "renorm": rng.random() < 0.25,
+                          # what Generator.integers(MAX_INTC) may return: [0, MAX_INTC), ends included
+                          "rseed": rng.randrange(1, 2 ** 31 - 1) if rng.random() < 0.8 else rng.choice([0, 0, 1, 2 ** 31 - 2]),
                           "A": A, "b": b, "via_eval": ident and rng.random() < 0.7,
                           "fov": rng.random() < 0.3,
                           "spacing": [rng.choice([1, 1, 2, 3]) for _ in range(3)],
@@ -515,20 +537,21 @@ class C09(PropertyCheck):
             cases.append({"kind": "prng", "seed": rng.randrange(1, 2 ** 31 - 1), "steps": rng.choice([1, 2, 5, 40])})
         for k in range(n_clamp):
             n = rng.choice([1, 2, 3, 5, 8, 12])
-            dt = rng.choice(["int16", "int32", "uint8", "float64", "float64", "float32"])
+            dt = rng.choice(["int16", "int32", "uint8", "float64", "float64", "float32", "int8", "uint16", "int64", "uint32"])
             bad = rng.random() < 0.12
             bins = rng.choice([40000, 32768, 32767]) if bad and rng.random() < 0.5 else rng.choice([1, 2, 3, 4, 8, 16, 100, 256])
             if dt.startswith("float"):
                 x = [rng.randrange(-40, 200) / rng.choice([1, 2, 4, 8]) for _ in range(n)]
             else:
-                lo = 0 if dt == "uint8" else -50
-                x = [rng.randrange(lo, rng.choice([3, 10, 250])) for _ in range(n)]
+                lo = 0 if dt.startswith("uint") else -50
+                x = [rng.randrange(lo, rng.choice([3, 10, 120] if dt == "int8" else [3, 10, 250])) for _ in range(n)]
             if bad and rng.random() < 0.5:
                 x = [x[0]] * n      # constant array
             mask = None
             if rng.random() < 0.4:
                 mask = [rng.random() < 0.6 for _ in range(n)]
-            cases.append({"kind": "clamp", "dtype": dt, "x": x, "bins": bins, "mask": mask})
+            cases.append({"kind": "clamp", "dtype": dt, "x": x, "bins": bins, "mask": mask,
+                          "layout": rng.choice([None, None, "strided", "rev", "readonly"])})
         for k in range(n_fov):
             shape = [rng.choice([1, 2, 3, 4, 6]) for _ in range(3)]
             if shape == [1, 1, 1]:
@@ -778,6 +801,13 @@ class C09(PropertyCheck):
     def _clamp(self, c):
         hr, sm = self._patch()
         x = np.array(c["x"], dtype=c["dtype"])
+        lay = c.get("layout")       # the same numbers as a strided / negative-stride view / read-only array
+        if lay == "strided":
+            base = np.zeros(2 * len(x), dtype=x.dtype); base[::2] = x; x = base[::2]
+        elif lay == "rev":
+            base = x[::-1].copy(); x = base[::-1]
+        elif lay == "readonly":
+            x.setflags(write=False)
         mask = None if c["mask"] is None else np.array(c["mask"], dtype=bool)
         is_int = 1 if np.issubdtype(x.dtype, np.integer) else 0
         snap = Snapshot(x=x)
@@ -800,7 +830,8 @@ class C09(PropertyCheck):
                 fail = f"clamp: values outside [0, bins-1]: {ys.tolist()} bins={bins}"
             elif len(ys) and np.any((xs[:, None] < xs[None, :]) & (ys[:, None] > ys[None, :])):
                 fail = "clamp is not order preserving"
-        tags = ["clamp", "int" if is_int else "real", "masked" if mask is not None else "nomask", obs[0]]
+        tags = ["clamp", "int" if is_int else "real", "masked" if mask is not None else "nomask", obs[0],
+                "clamp-layout=" + str(lay)]
         return {"lines": [line], "impl": [obs], "oracle": fail, "nontrivial": len(set(c["x"])) > 1,
                 "tags": tags, "mutated": mut}
 
@@ -871,12 +902,12 @@ class C09(PropertyCheck):
             if c["via_eval"]:
                 T = Affine()
                 coords = ChainTransform(T, pre=R._from_affine, post=R._to_inv_affine).apply(R._vox_coords)
-                run = lambda: (float(R.eval(T)), H.copy(), guard_touched(big, ci * cj))
+                run = lambda: (float(R.eval(T)), H.copy(), guard_touched(big, ci * cj), R.rng.last)
                 tags.append("eval(T)")
             else:
                 Tv = VoxTransform(c["A"], c["b"])
                 coords = Tv.apply(R._vox_coords)
-                run = lambda: (float(R._eval(Tv)), H.copy(), guard_touched(big, ci * cj))
+                run = lambda: (float(R._eval(Tv)), H.copy(), guard_touched(big, ci * cj), R.rng.last)
                 tags.append("_eval(Tv)")
             if interp == "rand":
                 st, out = forked(run)
@@ -888,7 +919,7 @@ class C09(PropertyCheck):
                                       f"read or wrote outside its arrays"}
             else:
                 out = run()
-            val, Hc, touched = out
+            val, Hc, touched, drawn = out
             H[:] = Hc
         except Exception as e:
             return {"lines": [], "impl": [], "nontrivial": True, "tags": tags + ["raised"],
@@ -906,6 +937,8 @@ class C09(PropertyCheck):
             fail = f"clamped intensities exceed the histogram shape {(ci, cj)}"
         else:
             fail = ref_check(interp, H, src, tgt, coords, exact=exact)
+            if fail is not None and interp == "rand":
+                fail += f" (interp='rand', the generator returned {drawn})"
         if fail is None and c["ident"] and (c["via_eval"] or not c["fov"]):
             # eval(Affine()) composes float matrices: coordinates are integers up to ~1e-15
             if np.any(np.abs(H - np.diag(np.diag(H))) > (0 if exact else 1e-9)) if ci == cj else True:
@@ -920,7 +953,7 @@ class C09(PropertyCheck):
             fail = f"similarity {sim} = {val!r} on a non-empty histogram"
         draws = []
         if interp == "rand":
-            _, draws = draws_for(c["rseed"], len(src))
+            _, draws = draws_for(drawn if drawn else c["rseed"], len(src))
         lines = [self._jh_line(interp, ci, cj, padded, src, coords, draws)]
         impl = [("hist", H.ravel().tolist(), 0.0 if exact else 1e-9)]
         line, obs = self._measure_obs(sim, H, dist, c["renorm"], sm, val)
